@@ -57,6 +57,10 @@ add("C15", "bounded-exhaustive enumeration of hardened operators x hostile opera
     "Every hardened operator named by the property on every tuple of a hostile operand alphabet; each of 27 dynamic access forms (reads, stores, compound assignment, atomics; storage/uniform/private/workgroup/function/value objects; nested chains; pointer arguments; runtime arrays) with every representative of the index partition {0, n-1, n, n+1, 2^31-1, 2^31, 2^32-1} and both index types; reads of variables without initialiser. The emitted code runs in interpreters that trap on every operation the target language leaves undefined (poisoned locals, out-of-object accesses, division by zero, out-of-range conversions); results must equal the WGSL-defined and policy-defined values.",
     "The index alphabet is a partition by guard outcome, not the full 32-bit range. SPIR-V and GLSL offer no index policy in this tree: the access family is not applied to them.", "DESIGN.md §3 C15")
 
+add("C16", "exhaustive (name, position) enumeration over independent reserved-word lists and adversarial name pairs on an executable seed; emitted text parsed, scope-resolved and executed",
+    "A fixed executable seed with one entity of every kind is instantiated with every name from the union of three independently written reserved-word/builtin lists (HLSL, MSL/C++14, GLSL), naga helper and temporary patterns, case/suffix variants and non-ASCII identifiers at each of 15 positions, and with ordered pairs of a 48-name adversarial subset at pairs of positions. For each text backend the output must parse and scope-resolve without new identifier problems (reserved spelling confirmed against a list the author is certain of, duplicates in one scope), the reported entry-point name must exist, and execution must give the same result as with neutral names (every reference still reaches the intended entity).",
+    "Names that WGSL itself lets shadow a builtin the seed calls, WGSL builtin function names and texture/sampler type names are excluded (their resolution in the target interpreters is only approximated). Problems already present with neutral names are not attributed to the user name.", "DESIGN.md §3 C16")
+
 NA = {
 }
 for i in range(1, 20):
